@@ -272,9 +272,7 @@ func (w *saveWalk) walk(list []ast.Stmt, roles map[string]string, outerChecked b
 					// x, err := f(); if err != nil { return ... } as the next statement
 					ev := errVarOf(s.Lhs)
 					if ev != "" && i+1 < len(list) {
-						if nx, ok := list[i+1].(*ast.IfStmt); ok && nx.Init == nil && isErrNotNil(nx.Cond, ev) && returnsErrorOf(nx.Body, ev, w.otherErrVars(ev)) {
-							checked = true
-						}
+						checked = handledBy(list[i+1], ev, w.otherErrVars(ev))
 					}
 					w.noteErrVar(ev)
 					w.call(c, checked, "assigned, then checked by the next statement", roles, outerChecked)
@@ -366,4 +364,68 @@ func genSaveEffects(repo string) (string, error) {
 	fmt.Fprintf(&b, "(* the target file is opened with truncation (os.Create, or os.OpenFile with O_TRUNC) *)\nDefinition save_open_truncates : bool := %v.\n", truncates)
 	fmt.Fprintf(&b, "(* Save creates no file under a name of its own making (a name derived from the target can be the same for two\n   targets; os.CreateTemp is not counted): positions of such calls *)\nDefinition save_other_files : list string := %s.\n", coqStringList(otherPaths))
 	return b.String(), nil
+}
+
+// isErrIsNil: the condition `v == nil`
+func isErrIsNil(e ast.Expr, v string) bool {
+	if p, ok := e.(*ast.ParenExpr); ok {
+		return isErrIsNil(p.X, v)
+	}
+	be, ok := e.(*ast.BinaryExpr)
+	if !ok || be.Op != token.EQL || v == "" {
+		return false
+	}
+	x, ok1 := be.X.(*ast.Ident)
+	y, ok2 := be.Y.(*ast.Ident)
+	if ok1 && ok2 && x.Name == "nil" {
+		x, y = y, x
+	}
+	return ok1 && ok2 && x.Name == v && y.Name == "nil"
+}
+
+// handledBy: the statement that follows a call makes the error held by v reach the return value whenever it is not
+// nil: `if v != nil { return ..err }`, `if v == nil {...} else { return ..err }`, `return .., v`, or a tagless switch
+// whose clauses other than `case v == nil` (there must be a default among them) all return the error
+func handledBy(st ast.Stmt, v string, others map[string]bool) bool {
+	switch nx := st.(type) {
+	case *ast.IfStmt:
+		if nx.Init != nil {
+			return false
+		}
+		if isErrNotNil(nx.Cond, v) {
+			return returnsErrorOf(nx.Body, v, others)
+		}
+		if isErrIsNil(nx.Cond, v) {
+			eb, ok := nx.Else.(*ast.BlockStmt)
+			return ok && returnsErrorOf(eb, v, others)
+		}
+	case *ast.ReturnStmt:
+		if len(nx.Results) >= 1 {
+			id, ok := nx.Results[len(nx.Results)-1].(*ast.Ident)
+			return ok && id.Name == v
+		}
+	case *ast.SwitchStmt:
+		if nx.Tag != nil || nx.Init != nil {
+			return false
+		}
+		sawDefault, sawNil := false, false
+		for i, cl := range nx.Body.List {
+			cc := cl.(*ast.CaseClause)
+			if len(cc.List) == 1 && isErrIsNil(cc.List[0], v) {
+				if i != 0 {
+					return false // an earlier clause could take a nil error away; keep to the plain shape
+				}
+				sawNil = true
+				continue
+			}
+			if cc.List == nil {
+				sawDefault = true
+			}
+			if !returnsErrorOf(&ast.BlockStmt{List: cc.Body}, v, others) {
+				return false
+			}
+		}
+		return sawDefault && sawNil
+	}
+	return false
 }
